@@ -178,7 +178,7 @@ TxEndpoint(r, h, k) ==
             <<"C01.SegContiguous", ~Known(e, s) /\ s = e.nxt,
                                    R_SegContiguous(e, s, r.runs, r.alts, r.amb, r.plen)>>,
             <<"C06.NeverRetxAcked", IsRetx(e, s), R_C06_NeverRetxAcked(e, s)>>,
-            <<"C17.NothingAfterFin", e.fin.seq >= 0, R_C17_NothingAfterFin(e, s)>> }
+            <<"C17.NothingAfterFin", e.fin.seq >= 0 /\ e.fin.own, R_C17_NothingAfterFin(e, s)>> }
         fin == IF ~isFin THEN {} ELSE {
             <<"C17.FinSeq", TRUE, R_C17_FinSeq(e, s, abort)>>,
             <<"C17.FinAfterData", ~abort /\ e.peerFin < 0 /\ e.fin.seq < 0, R_C17_FinAfterData(e)>> }
@@ -191,7 +191,7 @@ TxEndpoint(r, h, k) ==
         splitDel == isData /\ IsSplit(e, s, r.plen) /\ Live(pk) /\ D(s, eps[pk].rnxt) <= 0
         e2 == [Emitted(e1, h.ack, wnd, now) EXCEPT !.splitDelivered = @ \/ splitDel,
                                                    !.idleWr = IF isData THEN 0 ELSE @]
-    IN  /\ Judge(k, common \cup data \cup fin \cup post)
+    IN  /\ JudgeCtx(k, common \cup data \cup fin \cup post, IF e.splitDelivered THEN "split-of-delivered-probe" ELSE "")
         /\ eps' = [eps EXCEPT ![k] = e2]
         /\ infl' = IF r.fate \in {"deliver", "dup"} THEN Put(infl, r.id, k) ELSE infl
         /\ last' = [last EXCEPT !.tx = [k |-> k, type |-> h.type, seq |-> s, first |-> first,
@@ -354,13 +354,13 @@ Ret(r) ==
                 /\ CASE r.op = "read" /\ r.res = "ok" ->
                           /\ JudgeCtx(k, okc \cup {
                                <<"C01.ReadIsPrefix", TRUE, R_C01_ReadIsPrefix(e, r.runs, r.n)>>,
-                               <<"C01.ReadWithinWritten", hasPeer, R_C01_ReadWithinWritten(e, r.n, eps[pk].wr)>> },
+                               <<"C01.ReadWithinWritten", hasPeer, ~hasPeer \/ R_C01_ReadWithinWritten(e, r.n, eps[pk].wr)>> },
                                IF hasPeer /\ eps[pk].splitDelivered THEN "split-of-delivered-probe" ELSE "")
                           /\ eps' = [eps EXCEPT ![k] = AppRead(e, r.n, r.want)]
                      [] r.op = "read" /\ r.res \in {"eof", "err"} ->
                           /\ JudgeCtx(k, okc \cup {
                                <<"C03.EofOnlyAfterFin", r.res = "eof", R_C03_EofOnlyAfterFin(e)>>,
-                               <<"C03.SuccessMeansDelivered", hasPeer, R_C03_SuccessMeansDelivered(e, eps[pk].flushMark)>> }, dctx)
+                               <<"C03.SuccessMeansDelivered", hasPeer, ~hasPeer \/ R_C03_SuccessMeansDelivered(e, eps[pk].flushMark)>> }, dctx)
                           /\ eps' = [eps EXCEPT ![k] = e]
                      [] r.op = "write" /\ r.res = "ok" ->
                           LET e1 == AppWrite(e, r.n, l) IN
